@@ -9,7 +9,7 @@ for d in sys.argv[1:]:
     if not os.path.exists(rf): print('skip (no result.json)', d); continue
     r = json.load(open(rf)); c = r.get('confirm', {})
     if not c.get('ok') and not r.get('confirm_manual'): print('skip (not confirmed)', d, {k: v for k, v in c.items() if k != 'demo_fail_excerpt'}); continue
-    m = re.search(r'/(C\d+)/out2?/(\w+)$', d)
+    m = re.search(r'/(C\d+)/out\d*/(\w+)$', d)
     pid, letter = m.group(1), m.group(2)
     out = os.path.join(V, 'seeded', '%s-%s' % (pid, letter)); os.makedirs(out, exist_ok=True)
     for f in ('patch.diff', 'demo.rs', 'demo.sh', 'notes.md'):
@@ -32,5 +32,7 @@ for d in sys.argv[1:]:
         'detected': any(v.get('exit') == 1 and v.get('violations', 0) > 0 for v in r.get('detect', {}).values()),
     }
     if r.get('confirm_manual'): meta['confirmed']['manual'] = r['confirm_manual']
+    hf = os.path.join(d, 'history.json')
+    if os.path.exists(hf): meta['history'] = json.load(open(hf))
     json.dump(meta, open(os.path.join(out, 'meta.json'), 'w'), indent=1)
     print('kept', out, 'detected' if meta['detected'] else 'NOT detected / not run')
